@@ -588,7 +588,7 @@ theorem router_ack (hc : L3Contracts) (cfg : AddrCfg) (hcfg : CfgOk cfg) (L : Li
       rw [this]; exact hd6)
     (by
       rw [hsjdrad, hsjnode, hsjrf, hs5at jd hjdr, hsjrad, hs5radjd]
-      exact hNd.of_eq_cfg rfl)
+      exact hNd.withRx _ _ _ hp5)
     (by rw [hsjnode, (hsjstat jd).2.2.1, hs5at jd hjdr]; exact hd4)
     (by rw [hsjnode, (hsjstat jd).2.2.2.1, hs5at jd hjdr]; exact hd5)
     (by rw [hsjnode, (hsjstat jd).1, hs5at jd hjdr]; exact hd2)
@@ -644,7 +644,7 @@ theorem router_ack (hc : L3Contracts) (cfg : AddrCfg) (hcfg : CfgOk cfg) (L : Li
        by
         show (s5.radioAt jd).rxMode = true
         rw [hs5radjd]
-        exact (hNd.of_eq_cfg (r' := (s.radioAt jd).withRx _ _) rfl).rxMode⟩
+        exact (hNd.withRx _ _ _ hp5).rxMode⟩
       (by
         intro k hk hrun
         obtain ⟨h1, _, h3, _⟩ := hrun
@@ -897,7 +897,7 @@ theorem router_ack (hc : L3Contracts) (cfg : AddrCfg) (hcfg : CfgOk cfg) (L : Li
         rw [drf, hs8radjd]; exact Nj2
       · rw [dne k hkj, hsjrf, hs5at k hkr]
         by_cases hka : k = a
-        · subst hka; rw [hs8rada]; exact hN'.of_eq_cfg rfl
+        · subst hka; rw [hs8rada]; exact hN'.withRx _ _ _ hq5
         · rw [hs8rad k hk hkr hka hkj]; exact hN'
   · rw [hs9rad a ha (fun e => hra e.symm), hs8rada]; rfl
   · intro k hk hka
@@ -1152,7 +1152,7 @@ theorem live_two_hops (hc : L3Contracts) (cfg : AddrCfg) (hcfg : CfgOk cfg) (L :
       rw [hs4ata, hs4n, hs4rada]; exact N5
     · rw [hs4at k hka]
       by_cases hkr : k = r
-      · subst hkr; rw [hs4radr]; exact hN'.of_eq_cfg rfl
+      · subst hkr; rw [hs4radr]; exact hN'.withRx _ _ _ hp5
       · rw [hs4rad k hk hka hkr]; exact hN'
   obtain ⟨sr', pkA, hpkA, er, okr', cr', ar', samer', fifoa, fifoo, qr'⟩ := router_ack hc cfg hcfg L tree fr pk ty.toNat
     x y d T hndef sr r s.cur jd (199984 - r - jd) hokr hsrc (by rw [hsrl]; exact hr) (by rw [hsrl]; exact ha)
@@ -1197,7 +1197,7 @@ theorem live_two_hops (hc : L3Contracts) (cfg : AddrCfg) (hcfg : CfgOk cfg) (L :
        by
         show (s4.radioAt r).rxMode = true
         rw [hs4radr]
-        exact (hNr.of_eq_cfg (r' := (s.radioAt r).withRx _ _) rfl).rxMode⟩
+        exact (hNr.withRx _ _ _ hp5).rxMode⟩
       (by
         intro k hk hrun
         obtain ⟨h1, _, h3, _⟩ := hrun
